@@ -1,4 +1,7 @@
-//! replay_tamper --in cases.json --out events.ndjson [--jobs N]
+//! replay_tamper --in cases.json --out events.ndjson [--jobs N] [--budget-ms B]
+//!
+//! --budget-ms: stop handing out new groups after B milliseconds (groups are taken in
+//! the order given); the cases of groups not started are written as run = "skip:budget".
 //!
 //! Executes the C02 cases TLC generated from spec/MCSlateAlgebra.tla on REAL
 //! wallets over a real in-process chain (vharness::world::World) and records
@@ -24,14 +27,14 @@
 mod tamper;
 
 use grin_util as util;
-use serde_json::{json, Map, Value};
+use serde_json::{json, Value};
 use std::io::Write;
 use std::sync::atomic::{AtomicUsize, Ordering};
 use std::sync::{Arc, Mutex};
 use vharness::libwallet;
 use vharness::world::{panic_msg, World, U};
 
-use libwallet::slate_versions::v4::{ParticipantDataV4, SlateV4};
+use libwallet::slate_versions::v4::SlateV4;
 use libwallet::Slate;
 use util::secp::Signature;
 
@@ -638,6 +641,7 @@ fn main() {
 	let mut inp = String::new();
 	let mut outp = String::new();
 	let mut jobs = 12usize;
+	let mut budget_ms: u64 = 0;
 	let mut i = 1;
 	while i < args.len() {
 		match args[i].as_str() {
@@ -651,6 +655,10 @@ fn main() {
 			}
 			"--jobs" => {
 				jobs = args[i + 1].parse().unwrap();
+				i += 1;
+			}
+			"--budget-ms" => {
+				budget_ms = args[i + 1].parse().unwrap();
 				i += 1;
 			}
 			_ => {}
@@ -667,6 +675,7 @@ fn main() {
 		.map(|g| g.as_array().cloned().unwrap_or_default())
 		.collect();
 	let root = vharness::driver::tmp_root();
+	let started = std::time::Instant::now();
 	let next = Arc::new(AtomicUsize::new(0));
 	let results: Arc<Mutex<Vec<Option<Vec<String>>>>> = Arc::new(Mutex::new(vec![None; groups.len()]));
 	let groups = Arc::new(groups);
@@ -685,6 +694,14 @@ fn main() {
 						break;
 					}
 					let dir = format!("{}/j{}_g{}", root, j, g);
+					if budget_ms > 0 && started.elapsed().as_millis() as u64 > budget_ms {
+						let lines = groups[g]
+							.iter()
+							.map(|c| json!({"ev": "case", "c": c, "g": g, "run": "skip:budget"}).to_string())
+							.collect();
+						results.lock().unwrap()[g] = Some(lines);
+						continue;
+					}
 					let lines = match std::panic::catch_unwind(std::panic::AssertUnwindSafe(|| run_group(&dir, g, &groups[g]))) {
 						Ok(l) => l,
 						Err(p) => groups[g]
@@ -711,6 +728,5 @@ fn main() {
 			}
 		}
 	}
-	let _: Map<String, Value> = Map::new();
 	eprintln!("replay_tamper: {} groups, {} cases", groups.len(), n);
 }
